@@ -12,7 +12,8 @@ MORE = {
              "tightness compare two runs (relational) and are NOT decided; they are covered only through the per-function clauses that "
              "make each step's value and cost independent of max_cost when it succeeds.",
         note=TB + "Operators are reached through the Dialect trait contract (ChiaDialect::op dispatches through function pointers, outside "
-             "Verus's fragment): every operator is ASSUMED to return a valid node, a cost <= max(2^62+2^40, max_cost) and no InternalError. "
+             "Verus's fragment). That every operator returns a valid node, a cost <= 2^62+2^40 and no InternalError is PROVED per operator in its "
+             "home unit (clause *.generic; DESIGN 11.17) and tied to the dispatch unit by a consistency check. "
              "Unlimited budget: the counter is assumed to stay below 2^62.",
         tech="contract-based deductive verification (Verus): loop invariant on the real interpreter loop over an abstract stack-discipline predicate",
         ref="4/C02"),
@@ -29,8 +30,12 @@ MORE = {
         text="Partial proof (Verus) of the mechanism: maybe_restore_with_node never errs on a consistent checkpoint (heap_limit >= 1), leaves "
              "counts() exactly unchanged, keeps every node older than the checkpoint (tree and validity), and the node it returns denotes "
              "the same tree as the one passed in; checkpoint_node_status classifies exactly; the RestoreAllocator arm of run_program keeps the "
-             "interpreter invariant. That a whole run with and without ENABLE_GC gives the same outcome is the composition of these "
-             "per-step facts (relational, not mechanised).",
+             "interpreter invariant, whose heap-cap part (needed because the restore re-allocates the returned atom with a checked allocation) "
+             "is now derived from proved operator contracts. That a whole run with and without ENABLE_GC gives the same outcome is the "
+             "composition of these per-step facts (relational, not mechanised). Finding F4 (fixed): through new_substr's unchecked heap "
+             "append a guarded program could exceed the heap limit by one byte and then fail with OutOfMemory only under ENABLE_GC; found "
+             "while discharging the generic operator contract, repaired by a fix: commit, and searched for concretely by the finder "
+             "(guarded programs under a window of heap limits).",
         note=TB + "The RestoreAllocator arm's history facts come from the proved checkpoint invariant cpinv (no assumption); gc_candidate is a trait contract.",
         tech="contract-based deductive verification (Verus): value-preserving-restore contract (counts, frame, tree equality)",
         ref="4/C04"),
